@@ -40,6 +40,9 @@ func texprToks(e string) string {
 var helperTExprs = [][2]string{
 	{"Inner", "S 4 N N int32 S N string B L N byte F N float64"},
 	{"NPtrStruct", "S 2 P P N int32 Q P N string"},
+	{"Plain", "S 2 A N int32 B N float64"},
+	{"Mid", "S 3 N N int32 P P N Plain V N Plain"},
+	{"NumBox", "S 2 L L N float64 M M N int32 N int32"},
 	{"NInt", "N int32"}, {"NUint", "N uint16"}, {"NFloat", "N float64"}, {"NBool", "N bool"}, {"NStr", "N string"},
 	{"NSlice", "L N int32"}, {"NMap", "M N string N int32"},
 }
